@@ -230,46 +230,62 @@ func k4(w *World, r *Report) {
 	}
 	r.Check(len(diff) == 0, "K-4", "record:wire-struct", fmt.Sprintf("MarshalJSON and UnmarshalJSON use identical wire structs (%d fields, same names, types and json tags)", sm.NumFields()), "the wire structs of MarshalJSON and UnmarshalJSON differ: "+strings.Join(diff, ", "), fnSite(w, mj), fnSite(w, uj))
 	// marshal: wire.k <- recv.f ; unmarshal: recv.g <- wire.k
-	recvField := func(v ssa.Value, fn *ssa.Function) string {
+	// (by type, in the codec functions and the helpers of the type they call: the
+	// wire struct may be built by one helper and consumed by another)
+	wireMT, wireUT := deref(wireM.Type()), deref(wireU.Type())
+	isRec := func(t types.Type) bool {
+		nn, _ := types.Unalias(deref(t)).(*types.Named)
+		return nn != nil && nn.Obj() == n.Obj()
+	}
+	fieldLoad := func(v ssa.Value, host func(types.Type) bool) string {
 		ld, ok := stripConv(v).(*ssa.UnOp)
 		if !ok || ld.Op != token.MUL {
 			return ""
 		}
 		fa, ok := ld.X.(*ssa.FieldAddr)
-		if !ok || len(fn.Params) == 0 || stripConv(fa.X) != ssa.Value(fn.Params[0]) {
+		if !ok || !host(fa.X.Type()) {
 			return ""
 		}
 		return fieldName(fa.X.Type(), fa.Field)
 	}
 	mapM := map[string]string{}
-	for _, b := range mj.Blocks {
-		for _, in := range b.Instrs {
-			st, ok := in.(*ssa.Store)
-			if !ok {
-				continue
-			}
-			if fa, ok := st.Addr.(*ssa.FieldAddr); ok && stripConv(fa.X) == stripConv(wireM) {
-				mapM[fieldName(fa.X.Type(), fa.Field)] = recvField(st.Val, mj)
+	for _, g := range w.withModuleCallees(mj, 2) {
+		for _, b := range g.Blocks {
+			for _, in := range b.Instrs {
+				st, ok := in.(*ssa.Store)
+				if !ok {
+					continue
+				}
+				if fa, ok := st.Addr.(*ssa.FieldAddr); ok && types.Identical(deref(fa.X.Type()), wireMT) {
+					k := fieldName(fa.X.Type(), fa.Field)
+					f := fieldLoad(st.Val, isRec)
+					if old, seen := mapM[k]; seen && old != f {
+						f = "" // written from different sources
+					}
+					mapM[k] = f
+				}
 			}
 		}
 	}
 	mapU := map[string]string{}
-	for _, b := range uj.Blocks {
-		for _, in := range b.Instrs {
-			st, ok := in.(*ssa.Store)
-			if !ok {
-				continue
-			}
-			fa, ok := st.Addr.(*ssa.FieldAddr)
-			if !ok || len(uj.Params) == 0 || stripConv(fa.X) != ssa.Value(uj.Params[0]) {
-				continue
-			}
-			ld, ok := stripConv(st.Val).(*ssa.UnOp)
-			if !ok || ld.Op != token.MUL {
-				continue
-			}
-			if wfa, ok := ld.X.(*ssa.FieldAddr); ok && stripConv(wfa.X) == stripConv(wireU) {
-				mapU[fieldName(wfa.X.Type(), wfa.Field)] = fieldName(fa.X.Type(), fa.Field)
+	for _, g := range w.withModuleCallees(uj, 2) {
+		for _, b := range g.Blocks {
+			for _, in := range b.Instrs {
+				st, ok := in.(*ssa.Store)
+				if !ok {
+					continue
+				}
+				fa, ok := st.Addr.(*ssa.FieldAddr)
+				if !ok || !isRec(fa.X.Type()) {
+					continue
+				}
+				if k := fieldLoad(st.Val, func(t types.Type) bool { return types.Identical(deref(t), wireUT) }); k != "" {
+					f := fieldName(fa.X.Type(), fa.Field)
+					if old, seen := mapU[k]; seen && old != f {
+						f = ""
+					}
+					mapU[k] = f
+				}
 			}
 		}
 	}
